@@ -173,7 +173,8 @@ def check_value(ctx, f, helper, v):
 def opcode_args(name):
     """Representative arguments for an opcode class: valid, boundary and wrong-typed."""
     ints = [0, 1, 5, 127, 128, 255, 256, 65535, 65536, -1, -128, -129, 2**31 - 1, 2**31, -2**31, 2**63, -2**63, 2**100]
-    strs = ["", "ab", "a b", "é", "中", "a\nb", "it's", 'q"q', "\\", "x" * 255, "x" * 256, "123"]
+    strs = ["", "ab", "a b", "é", "中", "a\nb", "it's", 'q"q', "\\", "x" * 255, "x" * 256, "123",
+            "\\u0041", "caf\\u00e9", "\\U0001f600", "\\\\u0041", "\\x41", "C:\\users", "\\u00", "a\\"]
     byts = [b"", b"ab", b"\x00\xff", b"a\nb", b"x" * 255, b"x" * 256]
     table = {
         "INT": ints + [True, False], "LONG": ints, "BININT": ints, "BININT1": ints, "BININT2": ints, "LONG1": ints, "LONG4": ints,
@@ -305,6 +306,82 @@ def check_cli(ctx, f, cli, text, mode):
                       f"source passed on the command line evaluates to {hits!r} instead of passing {text!r}"[:300], w)
 
 
+RAW_SOURCES = [
+    "__import__('vp_sink').hit('tag', \"caf\\u00e9\")",
+    "__import__('vp_sink').hit('tag', '\\u0041\\x42\\103')",
+    "__import__('vp_sink').hit('tag', r'\\u0041')",
+    "__import__('vp_sink').hit('tag', 'a\\\\u0041')",
+    "__import__('vp_sink').hit('tag', '\\N{LATIN SMALL LETTER E WITH ACUTE}')",
+    "__import__('vp_sink').hit('tag', 'tab\\there')",
+    "__import__('vp_sink').hit('tag', '%s' % 'x', '{}'.format(1))",
+]
+
+
+def check_cli_source(ctx, f, cli, src, mode):
+    """The command-line text is Python source: what it evaluates to when run directly is what it must
+    evaluate to when it arrives through the created / injected pickle."""
+    import vp_sink
+    agg = ctx.agg
+    key = h(("clisrc|" + mode + "|" + src).encode())
+    if not agg.case(key, True, {"cli": mode, "source": src[:80]}):
+        return
+    del vp_sink.LOG[:]
+    eval(src, {"__builtins__": __builtins__})
+    want = [e for e in vp_sink.LOG if e[0] == "hit"]
+    del vp_sink.LOG[:]
+    w = {"cli": mode, "source": src}
+    out_path = os.path.join(ctx.scratch, "c15_out.pkl")
+    in_path = os.path.join(ctx.scratch, "c15_in.pkl")
+    try:
+        err = io.StringIO()
+        if mode == "create":
+            with contextlib.redirect_stderr(err):
+                rc = cli.main(["fickling", "--create", src, out_path])
+            with open(out_path, "rb") as fh:
+                data = fh.read()
+        else:
+            with open(in_path, "wb") as fh:
+                fh.write(BASE)
+            import sys
+
+            class Out:
+                def __init__(self):
+                    self.buffer = io.BytesIO()
+
+                def write(self, s):
+                    pass
+
+                def flush(self):
+                    pass
+            o, old = Out(), sys.stdout
+            sys.stdout = o
+            try:
+                with contextlib.redirect_stderr(err):
+                    rc = cli.main(["fickling", "--inject", src, in_path])
+            finally:
+                sys.stdout = old
+            data = o.buffer.getvalue()
+    except (Exception, SystemExit) as e:
+        agg.count("values_delivered_or_refused")
+        agg.hist("refusals", f"cli-{mode}:{type(e).__name__}")
+        return
+    finally:
+        for pth in (out_path, in_path):
+            if os.path.exists(pth):
+                os.remove(pth)
+    if rc != 0:
+        return
+    try:
+        hits = load_and_get(data)
+    except Exception as e:
+        agg.violation(f"cli-{mode}-pickle-does-not-load:source", f"{type(e).__name__}: {str(e)[:100]}", w)
+        return
+    agg.count("values_delivered_or_refused")
+    if [ckey(x[1]) for x in hits] != [ckey(x[1]) for x in want]:
+        agg.violation(f"cli-{mode}-altered:source-escapes",
+                      f"source evaluates to {want!r} when run directly but to {hits!r} through the pickle"[:300], w)
+
+
 def run_shard(ctx):
     import fickling  # noqa: F401
     import fickling.fickle as f
@@ -326,6 +403,11 @@ def run_shard(ctx):
             i += 1
             if i % ctx.nshards == ctx.shard:
                 check_cli(ctx, f, cli, t, mode)
+    for src in RAW_SOURCES:
+        for mode in ("create", "inject"):
+            i += 1
+            if i % ctx.nshards == ctx.shard:
+                check_cli_source(ctx, f, cli, src, mode)
 
 
 def replay(ctx, payload):
